@@ -57,7 +57,11 @@ def materialise(layout, pool, sims, work):
     for ci, c in enumerate(layout):
         recs = [record_for(sims[pool[r[0] - 1]['key']], pool, r) for r in c['recs'] if r]
         kind = c['kind']
-        base = os.path.join(work, f'c{ci}')
+        # repeated-runs layout: every container sits in its own directory and
+        # carries the same file name (run_0/results.zip, run_1/results.zip, ...)
+        rdir = os.path.join(work, f'run_{ci}')
+        os.makedirs(rdir, exist_ok=True)
+        base = os.path.join(rdir, 'results')
         if kind == 'json':
             p = base + '.json'
             with open(p, 'w') as f:
